@@ -11,7 +11,7 @@ PROP = {
               "(symbolic verdict, call count) and without one; two harness threads with independent current traceparents. The TraceparentCtxt frame step and "
               "whole span trees exist as harnesses (c18_x_*) but give no verdict in 900 s: NOT decided",
     "outside": "TraceparentCtxt enter/exit restoring the previous traceparent and span trees through SpanGuard (harnesses do not finish); the real ThreadLocalCtxt as inner context (does not fit CBMC): the array-backed harness context stands in; real threads and async "
-               "interleavings; invalid / mismatched incoming headers beyond the two cases; Tracestate propagation",
+               "interleavings; invalid / mismatched incoming headers beyond the two cases; Tracestate propagation; NOTE hk_tlctxt_tp (harness/hk_tlctxt_tp, NOT registered): TraceparentCtxt<real ThreadLocalCtxt> frame step with re-entry (c18_x_tl_frame_step_*) builds with both thread-local shims but gives no verdict in 600 s (symex, 4.5 GB at 300 s: the typed ids pushed as properties make ThreadLocalValue's variant a solver-only decision, after which every clone / drop of the buffered value walks all value-bag arms) - restoring the previous traceparent on scope exit, and re-entering the same frame, stay NOT decided",
     "stubs": ["thread_local! ACTIVE_TRACEPARENT -> per-'thread' slots indexed by a harness-controlled thread id (stubs/tls_traceparent.toml)",
               "inner Ctxt = env::ArrCtxt", "rng = counter", "sampler = closure with call counter and symbolic verdict",
               "TraceId/SpanId::try_from_hex, Value::parse, <u128/u64 as FromValue>::from_value -> assert-unreachable (all ids/kinds in these harnesses are typed)"],
